@@ -102,14 +102,25 @@ pub fn run(line: &str) -> String {
         // random selector strings and API strings: a Selector or a SelectorError, never a panic
         let bytes = build("rand", n.min(200), seed);
         let s = String::from_utf8_lossy(&bytes).replace(['<', '>'], ":");
-        let variants = [s.clone(), format!("div{s}"), format!(":not({s})"), format!("a:nth-child({s})"), format!("[{s}]")];
+        let mut variants = vec![s.clone(), format!("div{s}"), format!(":not({s})"), format!("a:nth-child({s})"), format!("[{s}]")];
+        // syntax the compiler cannot express must come back as a SelectorError
+        const UNSUPPORTED: [&str; 22] = [
+            "a + b", "a ~ b", "a::before", "a:hover", "a:has(b)", "ns|a", "*|a", "[ns|x]", "a:nth-child(2 of b)", "x::part(y)",
+            "::slotted(a)", ":is(a, b)", ":where(a)", ":host", ":root", ":empty", "a:first-line", "a || b", ":nth-col(2)",
+            ":not(a + b)", "a:not(:hover)", "@x",
+        ];
+        let k = (seed as usize) % UNSUPPORTED.len();
+        variants.push(UNSUPPORTED[k].to_string());
+        variants.push(format!("div {}", UNSUPPORTED[(k + 7) % UNSUPPORTED.len()]));
+        variants.push(format!("{}, p", UNSUPPORTED[(k + 3) % UNSUPPORTED.len()]));
+        let total = variants.len();
         let mut okc = 0;
         for v in &variants {
             if v.parse::<Selector>().is_ok() {
                 okc += 1;
             }
         }
-        return format!("selfuzz {n} parsed={okc}/5");
+        return format!("selfuzz {n} parsed={okc}/{total}");
     }
     let handlers = (seed % 3) as u8;
     let nsel = if kind == "manysel" { n.min(3000) / 10 } else { 0 };
